@@ -330,7 +330,10 @@ func (p *c17Peer) listen() error {
 	if p.sc.SmallRcvBuf {
 		lc.Control = func(network, address string, rc syscall.RawConn) error {
 			return rc.Control(func(fd uintptr) {
-				_ = syscall.SetsockoptInt(int(fd), syscall.SOL_SOCKET, syscall.SO_RCVBUF, 4096)
+				// a small window, and a small MSS so that the window stays a multiple of the segment size
+				// (a receive buffer below the 64 KiB loopback MSS makes TCP itself stall for tens of seconds)
+				_ = syscall.SetsockoptInt(int(fd), syscall.IPPROTO_TCP, syscall.TCP_MAXSEG, 1000)
+				_ = syscall.SetsockoptInt(int(fd), syscall.SOL_SOCKET, syscall.SO_RCVBUF, 16384)
 			})
 		}
 	}
@@ -574,7 +577,11 @@ func (p *c17Peer) serve(cn *c17Conn) {
 				p.end(cn, fmt.Sprintf("scripted drop after %d ms of silence", sc.IdleMs), true)
 			default:
 				if _, ok := err.(*vfBGPError); ok {
-					p.violation("wire:malformed:"+vfBGPErrCode(err), fmt.Sprintf("connection %d: message %d does not frame: %v (%s)", cn.idx, nmsgs, err, vfHex(raw)))
+					sig := "wire:malformed:" + vfBGPErrCode(err)
+					if len(raw) >= vfBGPHeaderLen && vfBGPErrCode(err) == "header:length-range" && vfBE16(raw[16:18]) > vfBGPMaxLen {
+						sig = "wire:message-longer-than-4096-octets"
+					}
+					p.violation(sig, fmt.Sprintf("connection %d: message %d does not frame: %v (%s)", cn.idx, nmsgs, err, vfHex(raw)))
 				}
 				p.end(cn, "closed by the speaker: "+err.Error(), false)
 			}
@@ -821,7 +828,8 @@ func (p *c17Peer) awaitConvergence() bool {
 		p.mu.Unlock()
 		ok2, sig2, sum2 := p.awaitConvergenceOnce(c17Confirm, false)
 		if ok2 {
-			p.c.Count("converged-after-the-deadline-while-starved")
+			p.c.Count("converged-after-the-deadline")
+			p.debugDump("late-convergence", sum)
 			return true
 		}
 		if sig2 == "" {
@@ -839,6 +847,19 @@ func (p *c17Peer) awaitConvergence() bool {
 	}
 	p.c.Inconclusive(fmt.Sprintf("scenario %d: %s — not judged, no confirmation period without scheduling gaps", p.sc.ID, sum))
 	return false
+}
+
+// debugDump leaves the scenario history in the work directory (kept with --keep) for events that are
+// not violations but worth a look.
+func (p *c17Peer) debugDump(what, note string) {
+	dir := os.Getenv("VERIF_WORK")
+	if dir == "" {
+		return
+	}
+	d := p.dump()
+	d["note"] = note
+	d["elapsed_ms"] = time.Since(p.t0).Milliseconds()
+	_ = os.WriteFile(fmt.Sprintf("%s/c17-%s-shard%s-scenario%d.json", dir, what, os.Getenv("VERIF_SHARD"), p.sc.ID), []byte(vfJSON(d)), 0o644)
 }
 
 // awaitConvergenceOnce returns (true, "", "") on convergence, (false, "", "") when the scenario is not
@@ -986,9 +1007,21 @@ func vfc17RunScenario(c *vfCase, sc *c17Scenario) {
 	case sc.Class == "as4-unrepresentable":
 		p.awaitAS4Outcome()
 	default:
+		tw := time.Now()
 		converged = p.awaitConvergence()
 		if converged {
 			c.Count("scenarios:converged")
+			switch d := time.Since(tw); {
+			case d < 100*time.Millisecond:
+				c.Count("convergence-wait:under-100ms")
+			case d < time.Second:
+				c.Count("convergence-wait:under-1s")
+			case d < 5*time.Second:
+				c.Count("convergence-wait:under-5s")
+			default:
+				c.Count("convergence-wait:over-5s")
+				p.debugDump("slow-convergence", d.String())
+			}
 		}
 	}
 	// Close, then watch
@@ -1238,8 +1271,8 @@ func vfc17GenConnScripts(r *vfRand, sc *c17Scenario) {
 		}
 		if cs.OpenStyle == "plain" || cs.OpenStyle == "cap-wins" {
 			switch k := r.Intn(20); {
-			case k < 3:
-			case k < 6:
+			case k < 2:
+			case k < 7:
 				cs.Fault, cs.IdleMs = "drop-idle", r.Range(15, 80)
 			case k < 11:
 				cs.Fault, cs.K = "drop-after-msgs", r.Intn(13)
@@ -1287,14 +1320,16 @@ func vfc17BigScenario(r *vfRand, id int) *c17Scenario {
 		sc.Conns[0].Fault, sc.Conns[0].K, sc.Conns[0].StallMs = "drop-after-bytes", r.Range(5000, 150000), 0
 	}
 	var comms []uint32
-	for i := 0; i < 50; i++ {
+	for i := 0; i < 60; i++ {
 		comms = append(comms, uint32(64512<<16|i))
 	}
+	// 800 routes: a withdraw of all of them (the speaker puts all withdrawn prefixes of one change into one
+	// UPDATE) still fits into 4096 octets; C16 probes the sizes beyond that
 	var all []c17Route
-	for i := 0; i < 1200; i++ {
+	for i := 0; i < 800; i++ {
 		all = append(all, c17Route{Prefix: fmt.Sprintf("10.%d.%d.%d/32", 100+i/60000, (i/250)%250, i%250+1), LocalPref: 100, Comms: comms})
 	}
-	half := append([]c17Route(nil), all[:600]...)
+	half := append([]c17Route(nil), all[:400]...)
 	for i := 0; i < 100; i++ {
 		half[i].LocalPref = 200
 		half[i].Comms = comms[:10]
@@ -1302,7 +1337,7 @@ func vfc17BigScenario(r *vfRand, id int) *c17Scenario {
 	sc.Ops = []c17Op{
 		{Gap: "none", Kind: "grow", Routes: all},
 		{Gap: "sleep", GapMs: r.Range(1, 60), Kind: "shrink+attributes", Routes: half},
-		{Gap: "sleep", GapMs: r.Range(1, 60), Kind: "shrink", Routes: half[:vfPick(r, []int{0, 1, 300})]},
+		{Gap: "sleep", GapMs: r.Range(1, 60), Kind: "shrink", Routes: half[:vfPick(r, []int{0, 1, 200})]},
 	}
 	return sc
 }
@@ -1332,6 +1367,10 @@ func vfc17Directed() []*c17Scenario {
 		{Class: "normal", MyASN: 64512, PeerASN: 64513, PeerAS4: false, HoldS: 90, PeerHoldS: 90,
 			Conns: []c17ConnScript{{OpenStyle: "plain", Fault: "drop-after-bytes", K: 19 + 30, RST: true}, {OpenStyle: "plain", Fault: "drop-after-msgs", K: 2}},
 			Ops:   []c17Op{set(routes...), set(routes[1]), set(routes...)}},
+		// iBGP: the peer drops an idle connection, then drops again right after the KEEPALIVE of the next one
+		{Class: "normal", MyASN: 65536, PeerASN: 65536, PeerAS4: true, HoldS: 3, PeerHoldS: 90,
+			Conns: []c17ConnScript{{OpenStyle: "plain", Fault: "drop-idle", IdleMs: 40}, {OpenStyle: "plain", Fault: "drop-after-msgs", K: 1, RST: true}},
+			Ops:   []c17Op{set(routes...), {Gap: "sleep", GapMs: 90, Kind: "directed", Routes: routes[:1]}, set(routes[1], c17Route{Prefix: "10.7.0.1/32", LocalPref: 300})}},
 		// Close while the peer sits on its OPEN reply
 		{Class: "normal", MyASN: 64512, PeerASN: 64513, PeerAS4: true, HoldS: 90, PeerHoldS: 90, CloseEarly: true, CloseDelayMs: 20,
 			Conns: []c17ConnScript{{OpenStyle: "plain", HoldOpenMs: 250}}, Ops: []c17Op{set(routes...)}},
